@@ -107,7 +107,7 @@ typedef struct SimProc {
     SimImage *img;
     struct SimProc *share;     /* vfork child: shares parent's statics */
     char *imgdata;             /* private copy of image statics when not loaded */
-    bool alive, zombie, reaped;
+    bool alive, zombie, reaped, reusable;
     int status;                /* wait status */
     uint64_t zombie_at;        /* sim time at which waitpid can see the death */
     SimFile *fds[SIM_MAXFD];
@@ -143,6 +143,7 @@ SimProc *sim_find_pid(int pid);
 int sim_nprocs(void); SimProc *sim_proc_at(int i);
 void sim_kill_proc(SimProc *p, int sig);               /* harness-initiated kill */
 int sim_proc_live_tasks(SimProc *p);
+void sim_forget_dead(void);
 void sim_env_set(SimProc *p, const char *kv);
 extern bool sim_trace;
 void sim_tracef(const char *fmt, ...) __attribute__((format(printf, 1, 2)));
